@@ -28,6 +28,7 @@ import (
 	"sort"
 	"strings"
 
+	"github.com/openacid/slim/encode"
 	"github.com/openacid/slim/trie"
 	"github.com/openacid/testkeys"
 )
@@ -307,10 +308,53 @@ func c20CheckBuild(c *Ctx, r *RNG, tc *TrieCase) (*Built, *c20Finding) {
 	return b, nil
 }
 
+// c20CheckArena: raw []byte values that are sub-slices of ONE caller-owned arena, each with
+// spare capacity behind it (the rest of the arena), some shorter than the size the encoder
+// declares (encode.Bytes{Size}.Encode hands the caller's slice through): the whole arena,
+// including the bytes behind every value, must be unchanged by NewSlimTrie.
+func c20CheckArena(r *RNG, tc *TrieCase) *c20Finding {
+	n := len(tc.Keys)
+	if n == 0 {
+		return nil
+	}
+	size := 1 + r.Intn(6)
+	slot := size + 5
+	arena := make([]byte, n*slot)
+	for i := range arena {
+		arena[i] = 0xa5 ^ byte(i*7)
+	}
+	vals := make([][]byte, n)
+	for i := range vals {
+		l := size
+		if r.Intn(3) == 0 {
+			l = r.Intn(size + 1) // shorter than the declared size, possibly empty
+		}
+		vals[i] = arena[i*slot : i*slot+l] // capacity reaches to the end of the arena
+	}
+	ref := append([]byte{}, arena...)
+	func() {
+		defer func() { recover() }()
+		o := tc.GoOpt()
+		trie.NewSlimTrie(encode.Bytes{Size: size}, tc.Keys, vals, o)
+	}()
+	if !bytes.Equal(arena, ref) {
+		i := 0
+		for i < len(arena) && arena[i] == ref[i] {
+			i++
+		}
+		return &c20Finding{"C20:build-modifies-value-memory", "C20: NewSlimTrie wrote into caller-owned memory behind a []byte value (spare capacity of the value slice)",
+			map[string]interface{}{"encoder": fmt.Sprintf("encode.Bytes{Size:%d}", size), "value_index": i / slot, "value_len": len(vals[i/slot]), "first_changed_offset_in_slot": i % slot, "keys": len(tc.Keys)}}
+	}
+	return nil
+}
+
 // c20Case runs (a), (b) on the current-format stream, (c) for one generated case.
 func c20Case(c *Ctx, r *RNG, tc *TrieCase, count bool) *c20Finding {
 	b, f := c20CheckBuild(c, r, tc)
 	if f != nil {
+		return f
+	}
+	if f := c20CheckArena(r, tc); f != nil {
 		return f
 	}
 	if b.Err != nil {
